@@ -293,6 +293,11 @@ def harness_signatures(g, tier):
             sigs.append((a[:i] + c + a[i + 1:], b))
             if tier == "thorough":
                 sigs.append((a, b[:i] + c + b[i + 1:]))
+    if tier == "quick":
+        # every ambiguity code at least once: in the first letter of the upstream word and in the last letter of the downstream one
+        for c in IUPAC_DEGENERATE:
+            sigs.append((c + a[1:], b))
+            sigs.append((a, b[:-1] + c))
     seen = []
     for s in sigs:
         if s not in seen:
